@@ -120,16 +120,17 @@ def opRun (j : Json) : Json :=
     let cfg : Run.Cfg := { cwnm := getBool cfgj "cwnm", willRun := getBool cfgj "will_run" true,
                            unmatchedAvail := getBool cfgj "unmatched_avail" }
     let script : Script := { todo := (getArr j "script").toList.map entryOfJson }
-    let st0 : Run.RunSt Script := { ms := script }
+    let st0 : Run.LoopSt Script := { ms := script }
     let method := getStr j "method"
-    let (lines, st) :=
+    let (lines, st, acc) :=
       if method == "collect" then Run.collectRun scripted scan cfg recs st0
       else if method == "collectN" then Run.collectN scripted scan cfg (getNat j "n") recs st0
       else Run.nextRun scripted scan cfg recs st0
     Json.mkObj [("lines", Json.arr (lines.map jsonOfRec).toArray),
       ("flags", jsonOfFlags st.fl), ("scan_count", toJson st.scanCount),
-      ("unmatched", Json.arr (st.unmatched.map jsonOfRec).toArray),
-      ("offered", toJson st.offered), ("matched", toJson st.matched), ("yielded", toJson st.yielded),
+      ("unmatched", Json.arr (acc.unmatched.map jsonOfRec).toArray),
+      ("offered", toJson st.offered), ("matched", toJson st.matched), ("yielded", toJson acc.yielded),
+      ("declined", toJson st.declined), ("seen", toJson acc.seen),
       ("script_left", toJson st.ms.todo.length), ("underflow", toJson st.ms.underflow),
       ("calls", Json.arr (st.ms.seen.map jsonOfCtx).toArray)]
 
@@ -169,6 +170,29 @@ def opDen (j : Json) : Json :=
   Json.mkObj [("den", toJson ((List.range n).filter k.den)), ("wf", toJson (decide k.WF)),
               ("text", toJson (exprText k.toExpr)), ("last", jOptNat k.last?)]
 
+/-! op `meta`: the csvpath text as a list of [codepoint, isalnum, isspace] → csvpath without the
+    outer comment, the comment, and the metadata fields in dict order -/
+def mcharOfJson (j : Json) : Meta.MChar :=
+  match j with
+  | .arr a =>
+    let n := (a[0]?.getD Json.null |>.getNat?).toOption.getD 0
+    let al := (a[1]?.getD Json.null |>.getBool?).toOption.getD false
+    let sp := (a[2]?.getD Json.null |>.getBool?).toOption.getD false
+    { c := Char.ofNat n, alnum := al, space := sp }
+  | _ => { c := ' ', alnum := false, space := true }
+
+def mstrToString (s : Meta.MStr) : String := String.ofList (s.map (·.c))
+
+def opMeta (j : Json) : Json :=
+  let s := (getArr j "chars").toList.map mcharOfJson
+  let (p, k) := Meta.extract s
+  let kc := Meta.strip k
+  let fields := Meta.collect kc
+  Json.mkObj [("csvpath", toJson (mstrToString p)), ("comment", toJson (mstrToString kc)),
+    ("raises", toJson (Meta.collectRaises kc)),
+    ("fields", Json.arr (fields.map (fun kv => Json.arr #[toJson (mstrToString kv.1),
+        match kv.2 with | some v => toJson (mstrToString v) | none => Json.null])).toArray)]
+
 def handle (line : String) : Json :=
   match Json.parse line with
   | .error e => Json.mkObj [("error", toJson s!"bad-json: {e}")]
@@ -177,6 +201,7 @@ def handle (line : String) : Json :=
     if op == "scan" then opScan j
     else if op == "run" then opRun j
     else if op == "den" then opDen j
+    else if op == "meta" then opMeta j
     else Json.mkObj [("error", toJson s!"bad-op: {op}")]
 
 partial def loop (h : IO.FS.Stream) (out : IO.FS.Stream) : IO Unit := do
